@@ -310,7 +310,7 @@ func (handler *Handler) ProxyClientConnection(ctx context.Context, errCh chan<- 
 						"from database")
 					handler.logger.Debugln("Send error to db")
 
-					if err := handler.sendClientError(QueryExecutionWasInterrupted, packet); err != nil {
+					if err := handler.sendErrorToCommand(QueryExecutionWasInterrupted, packet); err != nil {
 						handler.logger.WithError(err).WithField(logging.FieldKeyEventCode, logging.EventCodeErrorResponseConnectorCantWriteToClient).
 							Debugln("Can't write response with error to client")
 					}
@@ -418,7 +418,7 @@ func (handler *Handler) ProxyClientConnection(ctx context.Context, errCh chan<- 
 			if err := handler.acracensor.HandleQuery(query); err != nil {
 				censorSpan.End()
 				clientLog.WithError(err).WithField(logging.FieldKeyEventCode, logging.EventCodeErrorCensorQueryIsNotAllowed).Errorln("Error on AcraCensor check")
-				if err := handler.sendClientError(QueryExecutionWasInterrupted, packet); err != nil {
+				if err := handler.sendErrorToCommand(QueryExecutionWasInterrupted, packet); err != nil {
 					handler.logger.WithError(err).WithField(logging.FieldKeyEventCode, logging.EventCodeErrorResponseConnectorCantWriteToClient).
 						Errorln("Can't write response with error to client")
 				}
@@ -1114,6 +1114,13 @@ func (handler *Handler) sendClientError(msg string, packet *Packet) error {
 	packet.SetData(errPacket)
 	_, err := handler.clientConnection.Write(packet.Dump())
 	return err
+}
+
+// sendErrorToCommand answers a packet of the client with an error built from that packet: the
+// answer carries the sequence id that follows the one of the client's packet
+func (handler *Handler) sendErrorToCommand(msg string, clientPacket *Packet) error {
+	clientPacket.header[SequenceIDIndex]++
+	return handler.sendClientError(msg, clientPacket)
 }
 
 // AddClientIDObserver subscribe new observer for clientID changes
